@@ -38,6 +38,10 @@ Judge(e) ==
     [] n = "CvScalar"         -> ScalarClauses(e.act.op, e.act.s, AsC(e.c), e.cls, AsC(e.d), e.dv)
     [] n = "CvClean"          -> Fails({<<"same_function", ConsistentCurve(AsC(e.d)) /\
                                      ObservedEquals(AsC(e.c), e.dv, CommonBreaks(e.c.U, e.d.U), Deg(e.c.U) + Deg(e.d.U))>>})
+    [] n = "SameFunction"     -> Fails({<<"result_consistent", ConsistentCurve(AsC(e.d))>>,
+                                     <<"same_function", ConsistentCurve(AsC(e.d)) =>
+                                         ObservedEquals(AsC(e.c), e.dv, CommonBreaks(e.c.U, e.d.U), Deg(e.c.U) + Deg(e.d.U))>>})
+    [] n = "DriverError"      -> {"operation_raised_unexpectedly"}
     [] n = "CvFitCurve"       -> FitCurveClauses(AsC(e.c), e.act.kv, e.act.nodes, AsC(e.d), e.act.err)
     [] n = "CvFitPoints"      -> FitPointsClauses(e.act.kv, e.act.weights, e.act.nodes, e.act.data, AsC(e.d))
     [] n = "Rule"             -> RuleClauses(e.act.xs, e.act.ws, e.act.order)
